@@ -289,6 +289,37 @@ func TestC05(t *testing.T) {
 		checkStream(c, ctx, msgs, cuts, trunc, "random")
 	})
 
+	// 2b. one body above the 64 KiB growth step of the body reader, placed
+	//     first, in the middle or last among small messages
+	bigs := []int{65532, 65536, 65540, 66000, 70000, 100000, 131072, 131076, 200000}
+	rec.Suite("big-bodies", len(bigs)*3*rec.N(2, 40), func(c *ev.Case) {
+		big := bigs[c.I%len(bigs)]
+		pos := (c.I / len(bigs)) % 3
+		var msgs [][]byte
+		n := 6 + c.R.IntN(20)
+		at := []int{0, n / 2, n - 1}[pos]
+		for i := 0; i < n; i++ {
+			b := bodySize(c.R, true)
+			if i == at {
+				b = big
+			}
+			msgs = append(msgs, seqMsg(uint32(c.I*64+i+1), b))
+		}
+		total := 0
+		for _, m := range msgs {
+			total += len(m)
+		}
+		c.Class("big-body=%d/pos=%d", big, pos)
+		var cuts []int
+		if c.R.IntN(2) == 0 {
+			cuts = randCuts(c, total)
+			if len(cuts) > 4000 {
+				cuts = nil
+			}
+		}
+		checkStream(c, ctx, msgs, cuts, -1, "big")
+	})
+
 	// 3. declared lengths 0..19 followed by more data: rejected, nothing read
 	//    beyond the 20 header bytes
 	rec.Suite("declared-length-below-header", 20*6, func(c *ev.Case) {
